@@ -232,8 +232,9 @@ def parse_not_serialised(mm):
     if len(g) < 5:
         return None
     scheme, host, port = _unhex(g[1]), _unhex(g[2]), int(g[4])
-    ser = scheme + b'://' + (b'[' + host + b']' if b':' in host else host) + ((b':' + str(port).encode()) if port else b'')
-    if ser != sb:
+    tail = (b':' + str(port).encode()) if port else b''
+    ser = scheme + b'://' + host + tail
+    if sb not in (ser, scheme + b'://[' + host + b']' + tail):   # Props/C13.lean, C13_parse_sound
         return ('the request-side lexer reads origin %r out of the string %r, which is not its serialisation: no pattern denotes that string, '
                 'yet it is treated like the origin' % (ser[:120], sb[:120]))
     return None
